@@ -112,3 +112,14 @@ package transport
 //@   ensures isnil(herr) && h.closed ==> called("Close")
 //@   ensures !isnil(herr) ==> called("Close")
 //@   ensures called("append") && called("Broadcast")
+
+// ---- round 11 (C15/C01 "each message on the wire is the 8-byte length followed by header and body"): the
+// one gather write whose three segments are pinned down above is the only way Send puts bytes on the
+// connection: a successful Send made it, and no path writes to the connection in any other way ----
+//@ func (*conn).Send
+//@   ensures isnil(result) ==> called("WriteTo")
+//@   ensures !called("Write") && !called("ReadFrom")
+//@
+//@ func (*connipc).Send
+//@   ensures isnil(result) ==> called("WriteTo")
+//@   ensures !called("Write") && !called("ReadFrom")
